@@ -897,7 +897,10 @@ switch_channel(struct caption *cc, cc_channel *ch, int new_chan)
 {
 	word_break(cc, ch, 1); // we leave for a number of frames
 
-	return &cc->channel[cc->curr_chan = new_chan];
+	/* Line 21 field 1 and field 2 are independent data streams,
+	   each has its own current channel. Bit 1 of a channel
+	   number is the field. */
+	return &cc->channel[cc->curr_chan[(new_chan >> 1) & 1] = new_chan];
 }
 
 static void
@@ -938,7 +941,7 @@ caption_command(vbi_decoder *vbi, struct caption *cc,
 	int chan, col, i;
 	int last_row;
 
-	chan = (cc->curr_chan & 4) + field2 * 2 + ((c1 >> 3) & 1);
+	chan = (cc->curr_chan[field2] & 4) + field2 * 2 + ((c1 >> 3) & 1);
 	ch = &cc->channel[chan];
 
 	c1 &= 7;
@@ -1387,7 +1390,7 @@ vbi_decode_caption(vbi_decoder *vbi, int line, uint8_t *buf)
 			fflush(stdout);
 		)
 
-		ch = &cc->channel[(cc->curr_chan & 5) + field2 * 2];
+		ch = &cc->channel[(cc->curr_chan[field2] & 5) + field2 * 2];
 
 		if (buf[0] == 0x80 && buf[1] == 0x80) {
 			if (ch->mode) {
@@ -1441,7 +1444,7 @@ vbi_decode_caption(vbi_decoder *vbi, int line, uint8_t *buf)
 static void
 caption_desync(struct caption *cc)
 {
-	/* cc->curr_chan = 8; *//* garbage */
+	/* cc->curr_chan[0] = cc->curr_chan[1] = 8; *//* garbage */
 
 	/* cc->xds = FALSE; */
 
